@@ -97,7 +97,7 @@ package cram
 //@   props C11
 //@   decoder
 //@   requires b != nil
-//@   modifies b.blockData, b.method
+//@   modifies b.blockData, b.method, objects(sam.Reference)
 
 // Block.readFrom and Container.readFrom (C11): sizes decoded from the stream
 // are checked before they size an allocation.
